@@ -7,7 +7,7 @@ symbol), so this is checked separately for every function the property's rules l
 import ast
 import builtins
 
-from ..model import walk_local
+from ..model import walk_local, unparse, AnalysisError
 
 
 def _bound_names(fn):
@@ -207,3 +207,128 @@ def rule_int_params(ctx, rid='L4'):
     if n:
         fi0 = P.funcs[next(q for q in sorted(ctx.functions) if q in P.funcs)]
         ctx.passed(rid, fi0, 'integer-only library parameters receive integer-valued expressions', '%d site(s)' % n)
+
+
+# ----------------------------------------------------------------------------------------------
+# L5: results must not depend on the memory layout of an input, index arithmetic must not be narrowed
+NARROW_INTS = {'uint8', 'int8', 'uint16', 'int16', 'float16', 'ubyte', 'byte', 'ushort', 'short', 'half'}
+ORDER_CALLS = {'ravel', 'flatten', 'reshape', 'copy', 'astype', 'tobytes', 'tostring'}
+
+
+def _order_arg(call):
+    """the `order` argument of a flattening / reshaping call as a python value, or None"""
+    for k in call.keywords:
+        if k.arg == 'order' and isinstance(k.value, ast.Constant):
+            return k.value.value
+    f = call.func
+    name = f.attr if isinstance(f, ast.Attribute) else (f.id if isinstance(f, ast.Name) else '')
+    if name in ('ravel', 'flatten') and isinstance(f, ast.Attribute) and len(call.args) == 1 \
+            and isinstance(call.args[0], ast.Constant) and isinstance(call.args[0].value, str):
+        return call.args[0].value           # x.ravel('K')
+    return None
+
+
+def rule_layout(ctx, rid, quals, narrow=True, what='the spectrum'):
+    """No flattening / reshaping in memory order ('K', 'A', 'F') of an array argument - the result would differ between
+    a C-ordered array and the same values held transposed or Fortran-ordered - and (narrow=True) no cast of index
+    arrays to 8 / 16 bit integers, whose arithmetic wraps silently."""
+    P = ctx.P
+    n = 0
+    for q in quals:
+        fi = P.funcs.get(q)
+        if fi is None:
+            continue
+        n += 1
+        c = 'the result does not depend on the memory layout of the arrays (no memory-order flattening)'
+        bad = None
+        for node in walk_local(fi.node):
+            if isinstance(node, ast.Call):
+                f = node.func
+                name = f.attr if isinstance(f, ast.Attribute) else (f.id if isinstance(f, ast.Name) else '')
+                if name in ('ravel', 'flatten', 'reshape') or name == 'nditer':
+                    o = _order_arg(node)
+                    if o is not None and str(o).upper() in ('K', 'A', 'F'):
+                        bad = (node, "`%s` flattens / reshapes in memory order (order=%r): for a transposed or "
+                               "Fortran-ordered argument the elements come out in a different sequence than the index "
+                               "arrays built in C order" % (unparse(node)[:60], o))
+        if bad:
+            ctx.violation(rid, fi, c, bad[1], node=bad[0])
+        else:
+            ctx.passed(rid, fi, c)
+        if not narrow:
+            continue
+        c2 = 'index arrays keep a full-width integer type (no cast to 8 / 16 bit, whose arithmetic wraps silently)'
+        bad = None
+        for node in walk_local(fi.node):
+            ty = None
+            if isinstance(node, ast.Call):
+                f = node.func
+                name = f.attr if isinstance(f, ast.Attribute) else ''
+                cand = []
+                if name == 'astype' and node.args:
+                    cand.append(node.args[0])
+                cand += [k.value for k in node.keywords if k.arg == 'dtype']
+                for a in cand:
+                    t = a.attr if isinstance(a, ast.Attribute) else (a.value if isinstance(a, ast.Constant) and isinstance(a.value, str) else
+                                                                     (a.id if isinstance(a, ast.Name) else None))
+                    if t in NARROW_INTS:
+                        ty = t
+            if ty:
+                bad = (node, '`%s` narrows an array to %s: bin / cell indices and their products wrap modulo 2**%s without '
+                       'an error once the number of cells exceeds it' % (unparse(node)[:60], ty, '16' if '16' in ty or ty in ('ushort', 'short', 'half') else '8'))
+        if bad:
+            ctx.violation(rid, fi, c2, bad[1], node=bad[0])
+        else:
+            ctx.passed(rid, fi, c2)
+    if n == 0:
+        raise AnalysisError('L5: none of the functions %s found' % (list(quals),))
+
+
+# ----------------------------------------------------------------------------------------------
+# L6: arithmetic in place on an array that carries the caller's dtype
+def rule_inplace_input_dtype(ctx, rid, quals):
+    """`acc = X.copy(); ...; acc -= component` updates an array of the CALLER's dtype in place: with an integer signal
+    numpy refuses the cast (or truncates), with a float32 signal every update is rounded to single precision, so the
+    running quantity is no longer the documented expression of the inputs.  The out-of-place form `acc = acc - c`
+    promotes to float64.  Reported for augmented assignments whose target was bound to a formal parameter or to a plain
+    copy of one."""
+    P = ctx.P
+    n = 0
+    for q in quals:
+        fi = P.funcs.get(q)
+        if fi is None:
+            continue
+        n += 1
+        formals = set(fi.all_formals())
+        carriers = {}
+        for node in walk_local(fi.node):
+            if isinstance(node, ast.Assign) and len(node.targets) == 1 and isinstance(node.targets[0], ast.Name):
+                v = node.value
+                src = None
+                if isinstance(v, ast.Name) and v.id in formals:
+                    src = v.id
+                elif isinstance(v, ast.Call) and isinstance(v.func, ast.Attribute) and v.func.attr == 'copy' \
+                        and isinstance(v.func.value, ast.Name) and v.func.value.id in formals and not v.args:
+                    src = v.func.value.id
+                elif isinstance(v, ast.Call) and isinstance(v.func, ast.Attribute) and v.func.attr in ('copy', 'array') \
+                        and isinstance(v.func.value, ast.Name) and v.func.value.id in ('np', 'numpy') and v.args \
+                        and isinstance(v.args[0], ast.Name) and v.args[0].id in formals \
+                        and not any(k.arg == 'dtype' for k in v.keywords):
+                    src = v.args[0].id
+                if src is not None:
+                    carriers[node.targets[0].id] = src
+        c = 'running arrays derived from an input are updated out of place (no in-place arithmetic in the caller\'s dtype)'
+        bad = None
+        for node in walk_local(fi.node):
+            if isinstance(node, ast.AugAssign) and isinstance(node.target, ast.Name) and node.target.id in carriers \
+                    and isinstance(node.op, (ast.Sub, ast.Add, ast.Mult, ast.Div)) \
+                    and not isinstance(node.value, ast.Constant):
+                bad = (node, '`%s` updates a copy of the argument %s in place, in that argument\'s dtype: an integer signal '
+                       'cannot take the float update, a float32 signal is rounded at every step (the out-of-place form '
+                       'promotes to float64)' % (unparse(node)[:60], carriers[node.target.id]))
+        if bad:
+            ctx.violation(rid, fi, c, bad[1], node=bad[0])
+        else:
+            ctx.passed(rid, fi, c)
+    if n == 0:
+        raise AnalysisError('L6: none of the functions %s found' % (list(quals),))
